@@ -25,8 +25,15 @@ var oneRepo = purgex.Shape{Repos: []int{1}, Leaves: []uint32{1024}}
 // case it is reported as a reproduction of that known finding.
 func pinned(t *testing.T, id, what string, c caseT) {
 	t.Helper()
+	var out outcomeT
+	pinnedOut(t, id, what, c, &out)
+}
+
+func pinnedOut(t *testing.T, id, what string, c caseT, outp *outcomeT) {
+	t.Helper()
 	hx.Journal(c)
 	var out outcomeT
+	defer func() { *outp = out }()
 	t0 := time.Now()
 	noExclude = true
 	defer func() { noExclude = false }()
@@ -152,4 +159,33 @@ func TestRegressChunkReadBreaks(t *testing.T) {
 			Faults: []faultT{{Phase: "delete", Store: "meta", Op: OpGetShort, Key: "reverse-index", Nth: nth, Times: 1}},
 		})
 	}
+}
+
+// An upload in flight across the resume: started after the kill (so after the index was started), all
+// its blobs written or re-used before the resume, metadata committed after the resumed build finished.
+// The resumed chunks must keep the ORIGINAL index time, or delete-unused takes these blobs for old ones.
+// Parallel 1 and fewer than 10 chunks: delete-unused then deterministically ends on a resumed chunk.
+func TestRegressUploadInFlightAcrossResume(t *testing.T) {
+	inflight := up(0, file("f", 5, 2, 0), file("g", 0, 2, 2), file("h", 300))
+	n := 0
+	for _, cr := range []crashT{{Sel: 2, Land: true}, {Sel: 3, Land: false}, {Sel: 3, Land: true}, {Sel: 4, Land: true}, {Sel: 4, Land: false}} {
+		cr := cr
+		c := caseT{
+			Shape: oneRepo, Chunk: 2, Parallel: 1, ResumeChunk: 3,
+			Pre:      []purgex.Op{up(0, file("a", 0, 0, 1, 2), file("b", 300, 1)), up(0, file("gone", 0, 2, 2)), {Kind: purgex.OpDelBundle, Repo: 0, Pick: 1}},
+			Crash:    &cr,
+			Mid:      []purgex.Op{up(0, file("m", 0, 1, 1))},
+			InFlight: &inflight,
+			Post:     []purgex.Op{up(0, file("p", 1, 0))},
+		}
+		var out outcomeT
+		pinnedOut(t, "", "a resumed index build must keep the original index time", c, &out)
+		if out.inFlight {
+			n++
+		}
+	}
+	if n < 3 {
+		t.Fatalf("harness: only %d of the pinned cases had an upload in flight across a resume", n)
+	}
+	stats.Count("pinned_in_flight_across_resume", n)
 }
